@@ -313,6 +313,23 @@ theorem amplitudeNormalise_sign (E : Nat → List Rat → Option (List Rat)) (th
     exact ⟨anLoop_length E thresh hE _ _ _ _ (hE _ _ _ he),
       anLoop_sign E thresh hE hp _ _ _ _ (hE _ _ _ he) (hp _ _ _ he)⟩
 
+/-- Positivity of the envelopes cannot be weakened to "never zero": with a negative envelope
+    (length-preserving, nowhere zero) the normalised sample has the opposite sign.  Real library:
+    the `splrep` combined envelope of some noise records dips below 0 and
+    `amplitude_normalise(interp_method='splrep')` flips signs there (harness corpus), which is why
+    `PosEnv` is validated on every run and assumed for the pchip interpolants only. -/
+theorem amplitudeNormalise_sign_needs_posEnv :
+    ∃ (E : Nat → List Rat → Option (List Rat)) (x : List Rat),
+      (∀ k y env, E k y = some env → env.length = y.length) ∧
+      (∀ k y env, E k y = some env → ∀ e ∈ env, e ≠ 0) ∧
+      0 < getR x 0 ∧ ¬ 0 < getR (amplitudeNormalise E (1 / 10) 3 x) 0 := by
+  refine ⟨fun _ y => some (y.map fun _ => -1), [1], ?_, ?_, by norm_num [getR], ?_⟩
+  · intro k y env h; cases h; simp
+  · intro k y env h e he; cases h
+    simp only [List.mem_map] at he
+    obtain ⟨_, _, rfl⟩ := he; norm_num
+  · norm_num [amplitudeNormalise, anLoop, getR, absR, sumR]
+
 /-- The quadrature signal has unit modulus: with `s[i]² = 1 − nX[i]²` (the sqrt table),
     `nX[i]² + q[i]² = 1` at every sample, and `q` has the input's length. -/
 theorem quad_unit_modulus (nX s q : List Rat) (hs : s.length = nX.length)
